@@ -961,6 +961,10 @@ def d10(prog, ctx):
 
 
 def run(prog, ctx):
+    ctx.rule("D11", "rule M8 of C08 run for C05: the per-chromosome container of processed records keeps one element per record (a read "
+                    "with two records is resolved, not reported twice)")
+    from . import c08 as _c08
+    _c08.m8(prog, ctx, tag="D11")
     ctx.rule("D5", "every mutable attribute initialised by a storage class's __init__ is re-initialised to the same value by its "
                    "reset() (and base reset is chained); the duplicate search loops have no early exit")
     ctx.rule("D1", "inventory of the read path (process -> process_genic/intergenic -> temp file -> loader -> stage-2 loop -> printers): "
